@@ -237,6 +237,9 @@ func main() {
 			os.Exit(2)
 		}
 		bad := false
+		for _, k := range sortedKeys(w.BrokenWhy) {
+			fmt.Printf("BROKEN CONTRACT %s: %s\n", k, w.BrokenWhy[k])
+		}
 		for _, k := range pos {
 			r := w.verifyFn(k, opt)
 			printFnResult(r, *verbose)
